@@ -494,6 +494,18 @@ func Forall(vars []*Term, body *Term) *Term {
 	return TP.mk("forall", "", SBool, nil, args...)
 }
 
+// forallPats: explicit instantiation patterns of quantified formulas built by ForallPat.
+var forallPats = map[*Term][][]*Term{}
+
+// ForallPat is Forall with explicit (multi-)patterns; each pattern is an alternative trigger.
+func ForallPat(vars []*Term, body *Term, pats ...[]*Term) *Term {
+	t := Forall(vars, body)
+	if t.Op == "forall" && len(pats) > 0 {
+		forallPats[t] = pats
+	}
+	return t
+}
+
 func Exists(vars []*Term, body *Term) *Term {
 	if body.IsFalse() {
 		return False
@@ -632,7 +644,23 @@ func (t *Term) write(sb *strings.Builder, names map[*Term]string) {
 			sb.WriteString(")")
 		}
 		sb.WriteString(") ")
-		t.Args[len(t.Args)-1].write(sb, names)
+		if pats := forallPats[t]; len(pats) > 0 && t.Op == "forall" {
+			sb.WriteString("(! ")
+			t.Args[len(t.Args)-1].write(sb, names)
+			for _, pt := range pats {
+				sb.WriteString(" :pattern (")
+				for i, x := range pt {
+					if i > 0 {
+						sb.WriteString(" ")
+					}
+					x.write(sb, names)
+				}
+				sb.WriteString(")")
+			}
+			sb.WriteString(")")
+		} else {
+			t.Args[len(t.Args)-1].write(sb, names)
+		}
 		sb.WriteString(")")
 	default:
 		sb.WriteString("(")
